@@ -3,6 +3,7 @@ module verifharness
 go 1.17
 
 require (
+	github.com/cornelk/hashmap v1.0.1
 	golang.org/x/sys v0.0.0-20220908164124-27713097b956
 	rcproxy v0.0.0
 )
@@ -10,7 +11,6 @@ require (
 require (
 	github.com/beorn7/perks v1.0.1 // indirect
 	github.com/cespare/xxhash/v2 v2.1.2 // indirect
-	github.com/cornelk/hashmap v1.0.1 // indirect
 	github.com/dchest/siphash v1.1.0 // indirect
 	github.com/fsnotify/fsnotify v1.6.0 // indirect
 	github.com/golang/protobuf v1.5.2 // indirect
